@@ -62,14 +62,16 @@ EVENT_ATTRS = ("e_out", "ce_out")
 
 
 def child_desc(typ, style):
-    """Model of the child entities ("Sub"): the parent's description with every attribute
-    renamed (prefix c), so that parent and child models accept different attributes."""
-    d = model_desc(typ, style)
-    out = {"public": False, "params": []}
-    for k, v in d.items():
-        if isinstance(v, list):
-            out[k] = ["c" + a for a in v]
-    return out
+    """Model of the child entities ("Sub").  Its outputs have other names than the parent's
+    (prefix c); its inputs are the parent's plus prefixed ones - and for hybrid simulators the
+    shared input names are classified the other way round (m_in triggers, t_in does not), so that
+    an entity judged by the wrong model is accepted by connect() but scheduled wrongly."""
+    if typ == "time-based":
+        return {"public": False, "params": [], "attrs": ["m_in", "cm_in", "cp_out"]}
+    if typ == "event-based":
+        return {"public": False, "params": [], "attrs": ["t_in", "ct_in", "ce_out"]}
+    return {"public": False, "params": [], "attrs": ["m_in", "t_in", "cm_in", "ct_in", "cp_out", "ce_out"],
+            "trigger": ["m_in", "ct_in"], "non-persistent": ["ce_out"]}
 
 
 def digest_inputs(inputs) -> str:
